@@ -243,8 +243,13 @@ def gen_completion_tables(ws):
         raise Inconclusive("completion-dump failed: " + r.stderr.decode("utf-8", "replace")[-500:])
     d = json.loads(r.stdout.decode())
     strip = lambda xs: sorted({x.split(":", 1)[1] for x in xs})
-    bang = sorted(set(strip(d["bang"])) - set(strip(d["bang_base"])))
-    tables = {"BANG": bang, "TOPLEVEL": strip(d["toplevel"]), "TYPES": strip(d["type"]),
+    # operators offered after `!` per context (end of value / in front of letters / nested):
+    # BANG = offered in SOME context (for offered => lexed), BANG_ALL = offered in EVERY
+    # context (for lexed => offered)
+    per_ctx = [set(strip(d[c])) - set(strip(d[c + "_base"])) for c in ("bang", "bang2", "bang3")]
+    bang = sorted(set.union(*per_ctx))
+    bang_all = sorted(set.intersection(*per_ctx))
+    tables = {"BANG": bang, "BANG_ALL": bang_all, "TOPLEVEL": strip(d["toplevel"]), "TYPES": strip(d["type"]),
               "VALUES": strip(d["value"])}
     kf = load_known_findings()
     for f in kf.get("findings", []):
@@ -879,7 +884,7 @@ def check(prop, tier, only=None, seed=0):
                 dst = os.path.join(hdir, "completion_gen.rs")
                 open(dst, "w").write("".join(
                     f"pub const {k}: &[&[u8]] = &[];\npub fn in_{k.lower()}(_w: &[u8]) -> bool {{ false }}\n" for k in (
-                    "BANG", "TOPLEVEL", "TYPES", "VALUES", "KF_C20_BANG_OFFERED_NOT_LEXED",
+                    "BANG", "BANG_ALL", "TOPLEVEL", "TYPES", "VALUES", "KF_C20_BANG_OFFERED_NOT_LEXED",
                     "KF_C20_BANG_LEXED_NOT_OFFERED")))
                 with open(os.path.join(ws, "crates/syntax/src/lib.rs"), "a") as f:
                     f.write(f'\n#[cfg(kani)]\n#[allow(dead_code)]\n#[path = "{dst}"]\npub(crate) mod verif_completion_gen;\n')
